@@ -137,6 +137,17 @@ func buildCases(rep *lib.Report) []*ccase {
 		m := r.Intn(3)
 		add(3, m, uint(r.Intn(1<<9)), uint(r.Intn(1<<uint(3*m))), forms[r.Intn(4)], r.Intn(2) == 0)
 	}
+	// further call forms: FV = call through a function value (callee from the call graph), MV = call through a
+	// method value (bound method wrapper; compared with the specification only, not with the one-call model)
+	nMore := 160
+	if lib.Thorough() {
+		nMore = 3000
+	}
+	for k := 0; k < nMore; k++ {
+		n, m := 1+r.Intn(3), r.Intn(3)
+		add(n, m, uint(r.Intn(1<<uint(n*n))), uint(r.Intn(1<<uint(n*m))), []string{"FV", "MV"}[k%2], r.Intn(2) == 0)
+	}
+	rep.Extra["function_value_and_method_value_cases"] = nMore
 	rep.Extra["exhaustive_up_to_arity"] = maxExh
 	rep.Extra["random_arity3_cases"] = nRand3
 	// malformed stream: ragged rows, positions out of range, negative positions
@@ -284,7 +295,7 @@ func runBatch(rep *lib.Report, batch int, cs []*ccase, onDemand bool) bool {
 		// ---- M4: the contract graph
 		key := mod + "." + c.fname()
 		switch c.form {
-		case "FM":
+		case "FM", "MV":
 			key = "(*" + mod + ".T)." + c.fname()
 		case "I", "IP":
 			key = fmt.Sprintf("%s.I_%d.%s", mod, c.id, c.fname())
@@ -336,6 +347,36 @@ func runBatch(rep *lib.Report, batch int, cs []*ccase, onDemand bool) bool {
 			readCaller(sc, st, st.FlowGraph.Summaries[caller], g, key, mod)
 			if sc.shapeErr != "" {
 				rep.Fail("harness-shape:"+c.key(), "caller graph outside the modelled family: "+sc.shapeErr, caseReplay(c, cs, mod), true)
+				continue
+			}
+			if c.form == "MV" {
+				// outside the one-call family (the call goes through the synthetic bound-method wrapper):
+				// the property itself is still checked: reported flows == what the specification lists
+				kk := c.key() + fmt.Sprintf("/src=%d", i)
+				rep.Case(kk)
+				rep.Count("form=MV")
+				// The call resolves to the synthetic wrapper M$bound, whose analysed body calls the specified
+				// method: every listed flow must be reported; additional flows (the traversal composes
+				// arg -> receiver -> result through the wrapper) are counted, they are not flows of a call
+				// "resolved to" the specified method.
+				want, real := listed(c, sc), join(sc.real)
+				have := map[string]bool{}
+				for _, x := range sc.real {
+					have[x] = true
+				}
+				var lost []string
+				for _, x := range strings.Split(want, ",") {
+					if x != "-" && x != "" && !have[x] {
+						lost = append(lost, x)
+					}
+				}
+				if want != real {
+					rep.Count("MV:extra-flows-through-bound-wrapper")
+				}
+				if len(lost) > 0 {
+					content := append(caseReplay(c, cs, mod), []byte(fmt.Sprintf("\n/* source at argument %d (source_%d)\n   specification lists : %s\n   real tool reports   : %s\n*/\n", i, sid(c, i), want, real))...)
+					rep.Fail("contract-flows:"+kk, fmt.Sprintf("a flow the specification lists is not reported for the call through a method value: spec lists %s, tool reports %s", want, real), content, false)
+				}
 				continue
 			}
 			fmt.Fprintf(&in, "visit\t%d.%d\t%d\t%d\t%d\t%s\t%s\t%s\t%s\n", c.id, i, c.n, c.m, i, sc.ptr, sc.resIdx, matrix(c.args), matrix(c.rets))
@@ -447,17 +488,15 @@ func readCaller(sc *subcase, st *dataflow.AnalyzerState, caller *dataflow.Summar
 	var fcall *dataflow.CallNode
 	nCallees := 0
 	var calleeNames []string
-	for instr, nodes := range caller.Callees {
-		name := ""
-		if instr.Common().IsInvoke() {
-			name = instr.Common().Method.Name()
-		} else if sc := instr.Common().StaticCallee(); sc != nil {
-			name = sc.Name()
-		}
-		if name != c.fname() {
-			continue
-		}
+	wantName := c.fname()
+	if c.form == "MV" {
+		wantName += "$bound"
+	}
+	for _, nodes := range caller.Callees {
 		for _, n := range nodes {
+			if n.Callee() == nil || n.Callee().Name() != wantName {
+				continue
+			}
 			fcall = n
 			nCallees++
 			code := calleeCode.FindStringSubmatch(n.String())
@@ -470,6 +509,11 @@ func readCaller(sc *subcase, st *dataflow.AnalyzerState, caller *dataflow.Summar
 	}
 	if fcall == nil || nCallees != 1 {
 		sc.shapeErr = fmt.Sprintf("%d call nodes for the call to %s", nCallees, c.fname())
+		return
+	}
+	if c.form == "MV" {
+		// every argument (and the captured receiver) is a pointer: observable after the call
+		sc.ptr = strings.Repeat("1", c.n)
 		return
 	}
 	// link facts
@@ -495,9 +539,12 @@ func readCaller(sc *subcase, st *dataflow.AnalyzerState, caller *dataflow.Summar
 		mk = instr.Common().Value.Type().String() + "." + instr.Common().Method.Name()
 	}
 	impl := "(*" + mod + ".T)." + c.fname()
+	if c.form == "F" || c.form == "FV" {
+		impl = mod + "." + c.fname()
+	}
 	ic, fcs := "-", "-"
 	switch c.form {
-	case "F":
+	case "F", "FV":
 		fcs = mod + "." + c.fname()
 	case "FM":
 		fcs = impl
@@ -508,10 +555,7 @@ func readCaller(sc *subcase, st *dataflow.AnalyzerState, caller *dataflow.Summar
 	}
 	// the implementation (or function) always has a body in the program; whether a summary was built
 	// from it is what ShouldBuildSummary decides, the model is told it exists to show it is not used
-	built := mod + "." + c.fname()
-	if c.form != "F" {
-		built = impl
-	}
+	built := impl
 	sc.linkInput = fmt.Sprintf("link\t%d.%d\t%s\t%s\t%s\t%s\t%s\t%s\t%s\n", c.id, sc.i, static, invoke, mk, impl, ic, fcs, built)
 	// caller-side edges
 	ptr := make([]byte, c.n)
